@@ -14,7 +14,9 @@ Inductive outcome := Ok | Raise (e : exn).
 
 (* An argument that is a set/frozenset, or some other iterable (a list). *)
 Inductive arg := ASet (l : list Z) | AList (l : list Z).
-Inductive copykind := CopyCopy | CopyDeep | CopyPickle.
+(* CopyPickleDetached: a pickle round trip of a Set-trait value (TraitSetObject) taken alone: its __setstate__
+   sets trait = None, so the copy is equal but no longer validates (known finding) *)
+Inductive copykind := CopyCopy | CopyDeep | CopyPickle | CopyPickleDetached.
 
 Inductive op :=
 | Add (x : Z) | Discard (x : Z) | Remove (x : Z)
@@ -128,6 +130,7 @@ Section WithValidator.
             ok (union (diff s removed) added)
                (if is_empty removed && is_empty added then [] else [(removed, added)])
         end
+    | Copy CopyPickleDetached => mkObs Ok s [] None (Some false) None   (* trait_set_object.py:585-589 *)
     | Copy _ => mkObs Ok s [] None (Some true) None   (* equal contents, validator kept, no notification *)
     end.
 
